@@ -12,10 +12,15 @@ import re
 from . import gen, replay
 from .common import Check
 
-FOCUSES = {
-    # module, focus, quick MaxTop, thorough MaxTop
-    "flow": ("MC_Flow", 1, 2),
-}
+FOCUSES = [
+    # module, focus name, extra constants, quick MaxTop, thorough MaxTop
+    ("MC_Flow", "flow", {}, 1, 2),
+    ("MC_Loops", "loops-single", {"Variant": '"single"'}, 1, 1),
+    ("MC_Loops", "loops-pairs", {"Variant": '"pairs"'}, 2, 3),
+    ("MC_Loops", "loops-nest", {"Variant": '"nest"'}, 2, 2),
+    ("MC_Trim", "trim-markers", {"Variant": '"markers"'}, 3, 5),
+    ("MC_Trim", "trim-blank", {"Variant": '"blank"'}, 3, 5),
+]
 
 _TAG = re.compile(r"\{%[-+~]?\s*(\w+)")
 
@@ -43,8 +48,9 @@ def check(tier: str) -> int:
                         "(calibrated against the golden compliance suite)",
                         "constructs listed in spec/UNSPECIFIED.md are outside the generated space",
                         "TLC, Json/IOUtils modules, CPython"]
-    for name, (module, q, t) in FOCUSES.items():
-        r = gen.run_focus(chk, module, name, max_top=t if tier == "thorough" else q)
+    for module, name, consts, q, t in FOCUSES:
+        r = gen.run_focus(chk, module, name, max_top=t if tier == "thorough" else q,
+                          extra_constants=consts, timeout=6000)
         if r is None:
             continue
         try:
